@@ -52,7 +52,7 @@ func VerifC20Invalid() {
 	path := verifPaths[rt.Choose("path", len(verifPaths))]
 	method := verifMethods[rt.Choose("method", len(verifMethods))]
 	name := []string{"", "name=db", "name=nope"}[rt.Choose("name", 3)]
-	extra := []string{"", "id=1", "id=x", "nodeID=zz", "nodeID=0000000000000009", "lockID=1"}[rt.Choose("param", 6)]
+	extra := []string{"", "id=1", "id=x", "nodeID=zz", "nodeID=0000000000000009", "lockID=1", "lockID=0"}[rt.Choose("param", 7)]
 	nodeHdr := []string{"", litefs.FormatNodeID(store.ID()), "00000000000000AA"}[rt.Choose("node.header", 3)]
 	query := name
 	if extra != "" {
@@ -62,6 +62,11 @@ func VerifC20Invalid() {
 		query += extra
 	}
 	body := rt.Bytes("body", rt.Choose("body.len", 2)*40)
+	if path == "/tx" && method == "POST" && rt.Choose("tx.body.wellformed", 2) == 1 {
+		if db := store.DB("db"); db != nil {
+			body = litefs.VerifEncodeTx(db, 0xAA, 42, db.Pos().PostApplyChecksum) // a correctly sequenced transaction file
+		}
+	}
 
 	// which requests are "valid" in the sense that they may legitimately change state or stream data
 	valid := false
@@ -74,9 +79,8 @@ func VerifC20Invalid() {
 		valid = true // may create the database; body validity decides the rest
 	case path == "/stream" && method == "POST", path == "/promote" && method == "POST":
 		valid = true // not explored here
-	case path == "/tx" && method == "POST" && name == "name=db":
-		valid = true // see VerifC13ForwardedTx
 	}
+	// POST /tx is never valid here: no halt lock is held in this harness (the accepted case is VerifC13ForwardedTx)
 	if valid {
 		rt.Assume(false)
 	}
@@ -112,7 +116,7 @@ func VerifC13ForwardedTx() {
 			db.ReleaseHaltLock(ctx, 7)
 		}
 	}
-	claimed := []string{"7", "8", ""}[rt.Choose("claimed.lock", 3)]
+	claimed := []string{"7", "8", "", "0"}[rt.Choose("claimed.lock", 4)]
 	file := litefs.VerifEncodeTx(db, 0xAA, 42, pos0.PostApplyChecksum)
 	q := "name=db"
 	if claimed != "" {
